@@ -6,7 +6,7 @@ LEVEL = "model_checking"
 PREFIXES = ("C10_",)
 ASSUME = ["gates sit at the vpoint hooks (build tag verif); a step of the model = release of the goroutine(s) it names and their arrival at the next gate",
           "select races the driver cannot force (timer vs abort, data vs closed channel) are left out of replayed behaviours (Replayable = TRUE); they are in the exhaustive model",
-          "producers: Triangle (simple) and Erroring; Abaco/Lancero/Roach producer chains are not replayed here",
+          "gated replay: producers Triangle (simple) and Erroring; the real Abaco source is exercised ungated over localhost UDP (failed start without data, start, stop, restart, goroutine census); Lancero/Roach chains are not exercised for this property",
           "a hang is a call that has not returned 2 s after every gate was opened, reported with its blocking frame",
           "Stop on a source that is still Starting panics by design below the RPC layer; the RPC layer never lets it happen (checked in the model with RPCLayer = TRUE/FALSE)"]
 
@@ -31,7 +31,7 @@ def collect(ctx, q):
 def run(ctx):
     scens = collect(ctx, ctx.quick())
     ctx.notes["schedules"] = len(scens)
-    L.validate(ctx, scens, PREFIXES)
+    L.validate(ctx, scens, PREFIXES, udp=True)
     return vlib.finish(ctx, LEVEL,
                        "schedule = TLC behaviour of Lifecycle.tla (counterexample or simulation) replayed step by step on the real code; distinct by hash of the executed steps; non-trivial = the core loop exited or a request was answered, with >= 2 concurrent callers",
                        ASSUME, exhaustive=False)
